@@ -300,6 +300,12 @@ func TestVerifC05CLI(t *testing.T) {
 			}
 		}
 		os.WriteFile(filepath.Join(d, "copy", "m.go"), []byte(progfam.RenderFile([]string{renamed})), 0o644)
+		// a DIRECTORY target: the copy sits next to an editor lock file (dangling link named *.go)
+		// and an underscore-prefixed file, both sorting before it
+		os.MkdirAll(filepath.Join(d, "dirtarget", "pkg"), 0o755)
+		os.WriteFile(filepath.Join(d, "dirtarget", "pkg", "m.go"), []byte(progfam.RenderFile([]string{renamed})), 0o644)
+		os.Symlink("user@host.4242:1700000000", filepath.Join(d, "dirtarget", "pkg", ".#m.go"))
+		os.WriteFile(filepath.Join(d, "dirtarget", "pkg", "_notes.go"), []byte("package sample\n"), 0o644)
 		// the same copy behind a //line directive, as generated code carries
 		os.MkdirAll(filepath.Join(d, "gen"), 0o755)
 		genSrc := progfam.RenderFile([]string{"//line template.tmpl:40\n" + renamed})
@@ -351,12 +357,15 @@ func TestVerifC05CLI(t *testing.T) {
 				}
 				r.Count("index_run_pairs_across_a_second_boundary", 1)
 			}
-			for _, extra0 := range [][]string{{"--threshold", "1.0"}, {"--threshold", "0.75", "--exact"}, {"--threshold", "1.0", "GEN"}} {
+			for _, extra0 := range [][]string{{"--threshold", "1.0"}, {"--threshold", "0.75", "--exact"}, {"--threshold", "1.0", "GEN"}, {"--threshold", "1.0", "DIR"}} {
 				extra := extra0
 				scanned := filepath.Join(d, "copy", "m.go")
 				if extra[len(extra)-1] == "GEN" {
 					extra = extra[:len(extra)-1]
 					scanned = filepath.Join(d, "gen", "m.go")
+				} else if extra[len(extra)-1] == "DIR" {
+					extra = extra[:len(extra)-1]
+					scanned = filepath.Join(d, "dirtarget")
 				}
 				args := append([]string{"scan", "--no-sandbox", "--db", db}, extra...)
 				args = append(args, scanned)
@@ -369,8 +378,8 @@ func TestVerifC05CLI(t *testing.T) {
 					Alerts []detection.ScanResult `json:"alerts"`
 				}
 				if jerr := json.Unmarshal([]byte(stdout.String()), &so); jerr != nil {
-					r.Fail("sfw scan output unreadable (%v, %v): %s", err, jerr, stdout.String())
-					return
+					r.Violate(fmt.Sprintf("cli/%s/%s/%s/scan-failed", b.ID, filepath.Ext(db), strings.Join(extra0, "")), fmt.Sprintf("sfw index of %s as Target, then sfw %v: the scan produced no report (exit: %v), so the indexed function is not found", b.ID, args, err), map[string]interface{}{"base": b.ID})
+					continue
 				}
 				found := false
 				for _, a := range so.Alerts {
